@@ -208,7 +208,7 @@ end sim
 
 theorem decode_union_sub (E : Ext) {ρ : Rho} {A B : Env} (cx : Ctx ρ A B) {f g : Flags} {c c' : String}
     (hr : ρ.rel c c' = true) {ua : UnionDef} (hua : A.union? c = some ua) (j : JVal) (sB : Bool) (w : PyVal)
-    (hnn : (g.nullable && (match j with | .null => true | _ => false)) = false)
+    (hnn : (g.nullable && isNullJ j) = false)
     (hIH : ∀ kvs, j = .obj kvs → MembersIH E ρ A B sB kvs)
     (h : decode E B [] sB (.union g c') j = .ok w) :
     decode E A [] false (.union f c) j = .ok (view ρ A (.union f c) w) := by
@@ -413,7 +413,7 @@ theorem decode_union_sub (E : Ext) {ρ : Rho} {A B : Env} (cx : Ctx ρ A B) {f g
                 rw [mkUnion_void E cx.wfA hua htA hvoid, view_union_known ρ A f _ _ htA]
                 simp [hvoid]
       | _ => unfold decode at h; simp [ht, hub, PTy.flags, verr] at h
-  | null => unfold decode at h; simp [hub, PTy.flags, verr] at h hnn; simp [hnn] at h
+  | null => unfold decode at h; simp [hub, PTy.flags, verr, isNullJ] at h hnn; simp [hnn] at h
   | _ => unfold decode at h; simp [hub, PTy.flags, verr] at h
 
 end StoneVerif.Rt.Compat
